@@ -961,7 +961,7 @@ class C14(Prop):
         return hs
 
     def oracle(self, h, il):
-        if h.meta.get("fault"):
+        if h.meta.get("fault") or "count" not in h.meta:
             return None
         if len(il) < len(h.ops):
             return {"reason": "history ended early (panic inside the limits)", "index": len(il) - 1,
@@ -1086,8 +1086,10 @@ class C19(SpecProp):
             pres = sorted(t.present)
             if pres:
                 ops += ["SLICE g %d s" % r.pick(pres), "KEYS s"] + ["KIDS s %d" % v for v in pres[:4]]
-                ops += ["NEW r %d" % cap0, "ADD r 0", "ADD r 1", "BIND r 0 1 %s" % gen.lab_alpha(0), "PUT r 1 V0102",
-                        "MERGE g r %d 0" % r.pick(pres), "KEYS g"] + ["KIDS g %d" % v for v in pres[:4]]
+                roomy = [v for v in pres if len(t.labels.get(v, [])) < n0 or gen.lab_alpha(0) in t.labels.get(v, [])]
+                if roomy and len(pres) + 2 <= 12:
+                    ops += ["NEW r %d" % cap0, "ADD r 0", "ADD r 1", "BIND r 0 1 %s" % gen.lab_alpha(0), "PUT r 1 V0102",
+                            "MERGE g r %d 0" % r.pick(roomy), "KEYS g"] + ["KIDS g %d" % v for v in pres[:4]]
             for ci, (nn, cc) in enumerate(self.CONFIGS):
                 N = nn if nn and nn >= n0 else n0
                 cap = cc if cc and cc >= cap0 else cap0
@@ -1121,6 +1123,12 @@ class C19(SpecProp):
         lim = gen.first_outside_limits(h)
         if lim is not None:
             mine = mine[:lim]
+        # a panic means the call was outside the limits of that configuration (inside them nothing
+        # panics: C02, C11, C13): the comparison covers the calls before the first panic of either trace
+        for j, r in enumerate(mine):
+            if r.endswith("-> PANIC"):
+                mine = mine[:j]
+                break
         other = seen.setdefault(base, (h.hid, mine))
         k = min(len(other[1]), len(mine))
         if other[1][:k] != mine[:k]:
